@@ -51,6 +51,21 @@ pub fn arb_canon_tt(n: usize) -> BoxedStrategy<Tt> {
     prop_oneof![6 => arb_tt(n), 1 => few, 2 => sym].boxed()
 }
 
+/// a <= b in the library's own ordering (C04 is stated relative to it; C08 says it is numeric)
+fn lib_le(fam: Fam, a: &Tt, b: &Tt) -> Option<bool> {
+    let (x, y) = (load(fam, a).ok()?, load(fam, b).ok()?);
+    guard(|| x.cmp_(y.as_ref()) != std::cmp::Ordering::Greater).ok()
+}
+
+/// The representative differs from the numeric orbit minimum `min` (an orbit member). If the
+/// library's own cmp does not rank `rep` above `min`, the library's ordering deviates from numeric
+/// order — C08's statement — and C04, which is stated relative to the library's own ordering,
+/// cannot be judged by the numeric oracle; if it does rank it above, `rep` is not the minimum in
+/// the library's own ordering either: a genuine C04 violation.
+fn ordering_is_to_blame(fam: Fam, rep: &Tt, min: &Tt) -> bool {
+    lib_le(fam, rep, min) == Some(true)
+}
+
 fn strategy_small(_t: Tier) -> BoxedStrategy<Case> {
     (arb_fam(), arb_group(), prop_oneof![1 => 0usize..=4, 4 => 5usize..=6])
         .prop_flat_map(|(fam, group, n)| arb_canon_tt(n).prop_map(move |f| Case { fam, group, f }))
@@ -75,6 +90,13 @@ fn run_orbit(c: &Case) -> Verdict {
     ensure!(rep.n() == n, "num_vars", "{} returned {} variables for an input of {}", what, rep.n(), n);
     let o = orbit_min(&c.f, g);
     if let Err(e) = same_fn(rep.as_ref(), &o.min) {
+        // is the representative the minimum in the library's OWN ordering? then the ordering, not
+        // the canonization, deviates from numeric order: C08's business, not a C04 violation
+        if let Ok(repm) = guard(|| to_model(rep.as_ref())) {
+            if repm.n == n && ordering_is_to_blame(c.fam, &repm, &o.min) {
+                return pass(false, vec!["library-order-differs-from-numeric-order(C08)".into()]);
+            }
+        }
         return fail(
             format!("not-minimum:{}", g.name()),
             format!("{} of {} is {} but the smallest function of its orbit ({} group elements enumerated) is {}: {}", what, c.f.short(), to_model(rep.as_ref()).short(), o.elements, o.min.short(), e),
@@ -285,7 +307,7 @@ fn run_inv(c: &InvCase) -> Verdict {
         what, c.f.short(), moved.short(), perm, mask, m1.short(), m2.short()
     );
     // the representative is never larger than the argument, and has the orbit invariants of f
-    ensure!(m1.cmp_num(&c.f) != std::cmp::Ordering::Greater, format!("rep-larger:{}", g.name()), "{}: representative {} is larger than the argument {}", what, m1.short(), c.f.short());
+    ensure!(lib_le(c.fam, &m1, &c.f).unwrap_or(true), format!("rep-larger:{}", g.name()), "{}: representative {} is larger (library cmp) than the argument {}", what, m1.short(), c.f.short());
     ensure!(invariant(&m1, g) == invariant(&c.f, g), format!("rep-outside-orbit:{}", g.name()), "{}: representative {} cannot be in the orbit of {} (different number of ones)", what, m1.short(), c.f.short());
     // functions of different orbits must get different representatives
     let mut separated = false;
@@ -456,14 +478,15 @@ fn run_pos(c: &PosCase) -> Verdict {
     // f is in the orbit of c by construction (the harness applied a group element): the
     // representatives must coincide; and no representative may exceed a known orbit member
     ensure!(
-        got.cmp_num(&cm) != std::cmp::Ordering::Greater && got.cmp_num(&f) != std::cmp::Ordering::Greater,
+        lib_le(c.fam, &got, &cm).unwrap_or(true) && lib_le(c.fam, &got, &f).unwrap_or(true),
         format!("walkpos:not-minimum:{}", g.name()),
         "{} of {} returns {} but {} (smaller) is in the same orbit; the input was built so that the walk meets it at compare point {} of {}",
         what, f.short(), got.short(), cm.short(), idx, total
     );
     if n <= 6 {
         let o = orbit_min(&f, g);
-        ensure!(got == o.min, format!("walkpos:not-minimum:{}", g.name()), "{} of {} returns {} but the orbit minimum is {} (walk position {} of {})", what, f.short(), got.short(), o.min.short(), idx, total);
+        let excused = got != o.min && ordering_is_to_blame(c.fam, &got, &o.min);
+        ensure!(got == o.min || excused, format!("walkpos:not-minimum:{}", g.name()), "{} of {} returns {} but the orbit minimum is {} (walk position {} of {})", what, f.short(), got.short(), o.min.short(), idx, total);
     }
     let (rep2, _, _) = lib!(format!("{}(n={})", what, n), canon(load(c.fam, &cm).map_err(|_| ()).unwrap_or_else(|_| x.dup()).as_ref(), g));
     let got2 = to_model(rep2.as_ref());
